@@ -1067,7 +1067,27 @@ theorem vectorExtension_lanes_counterexample :
 theorem vectorExtension_lanes_exact_iff :
     ∀ bw ∈ [128, 256, 512], ∀ sz ∈ [1, 2, 4, 8], (vecExtTypeLanes bw sz = vecExtUsedLanes bw sz ↔ sz = 8) := by decide
 
+/-- **known finding vector-extension.signed-lane-overflow**: a vector-extension lane computes in `T` itself, the scalar functor
+    in the promoted type: `int16_t(32767) + 1` is defined for the scalar evaluator (−32768, as NumPy) and signed overflow —
+    undefined — on a `vector_128` lane.  (Values agree in practice: g++ wraps.) -/
+theorem vecExtLane_signed_overflow_counterexample :
+    vecExtLane ⟨16, true⟩ .add 32767#16 1#16 = none
+      ∧ scalarOp ⟨16, true⟩ .add 32767#16 1#16 = some (BitVec.ofInt 16 (-32768)) := by decide
+
+/-- … wherever the vector-extension lane is defined it is the modular lane operation; unsigned lanes always are -/
+theorem vecExtLane_eq_lane (t : IntTy) (o : IOp) (a b r : BitVec t.bits) (h : vecExtLane t o a b = some r) :
+    r = o.lane a b := by
+  unfold vecExtLane at h
+  split at h
+  · cases h
+  · exact (Option.some.inj h).symm
+
+theorem vecExtLane_unsigned (t : IntTy) (hs : t.signed = false) (o : IOp) (a b : BitVec t.bits) :
+    vecExtLane t o a b = some (o.lane a b) := by
+  unfold vecExtLane; simp [hs]
+
 -- non-vacuity / instances
+example : vecExtLane ⟨16, true⟩ .add 32766#16 1#16 = some 32767#16 := by decide
 example : (⟨16, true⟩ : IntTy).decode (IOp.sub.lane (BitVec.ofInt 16 30000) (BitVec.ofInt 16 (-10000))) = -25536 := by decide
 example : (⟨16, false⟩ : IntTy).decode (IOp.sub.lane 40000#16 30000#16) = 10000 := by decide
 example : (⟨16, false⟩ : IntTy).wrap (40000 * 3) = 54464 ∧ (⟨8, true⟩ : IntTy).wrap (100 + 100) = -56 := by decide
